@@ -61,8 +61,10 @@ class TypeDecl:
 
 
 class Attr:
-    def __init__(self, name, type, optional=False):
-        self.name, self.type, self.optional = name, type, optional
+    """explicit attribute; redeclares=<supertype> for 'SELF\\super.name : T' (same Part 21 slot, specialised type)"""
+
+    def __init__(self, name, type, optional=False, redeclares=None):
+        self.name, self.type, self.optional, self.redeclares = name, type, optional, redeclares
 
 
 class Derived:
@@ -101,7 +103,7 @@ class Entity:
             h += '\n  SUBTYPE OF (%s)' % ', '.join(self.supers)
         out = [h + ';']
         for a in self.attrs:
-            out.append('  %s : %s%s;' % (a.name, 'OPTIONAL ' if a.optional else '', a.type.express()))
+            out.append('  %s : %s%s;' % (('SELF\\%s.%s' % (a.redeclares, a.name)) if a.redeclares else a.name, 'OPTIONAL ' if a.optional else '', a.type.express()))
         if self.derived:
             out.append(' DERIVE')
             for d in self.derived:
@@ -176,8 +178,15 @@ class Schema:
         out = []
         for n in order:
             for a in ents[n].attrs:
+                if a.redeclares:
+                    # an explicit redeclaration keeps the slot of the attribute it redeclares and specialises its type
+                    for k, (o, b, r) in enumerate(out):
+                        if o == a.redeclares and b.name == a.name:
+                            out[k] = (o, a, r)
+                    continue
                 out.append((n, a, (n, a.name) in redecl))
-        return out
+        # a redeclaration as DERIVE of an (explicitly redeclared) attribute
+        return [(o, a, r or (a.redeclares is not None and any((n2, a.name) in redecl for n2 in order))) for o, a, r in out]
 
     def subtypes(self, ename):
         return [e.name for e in self.entities if ename in e.supers]
@@ -247,8 +256,8 @@ class Lits:
             if r[0] == 'select':
                 out += self.select_alts(r[1], short)
             else:
-                inner = self.alts(types[m].body if not isinstance(types[m].body, tuple) else Named(m), short=True, _raw_named=m)
-                out += ['%s(%s)' % (m.upper(), x) for x in inner[:1 if short else 3]]
+                inner = self.alts(types[m].body if not isinstance(types[m].body, tuple) else Named(m), short=short, _raw_named=m)
+                out += ['%s(%s)' % (m.upper(), x) for x in (inner[:1] if short else inner)]
         return out
 
     def alts(self, t, short=False, _raw_named=None):
@@ -346,6 +355,7 @@ def support_decls():
         TypeDecl('selmix', ('select', ['color', 'dreal', 'tgt'])),
         TypeDecl('selnest', ('select', ['seldef', 'tgt2'])),
         TypeDecl('selagg', ('select', ['lsti', 'dstr'])),
+        TypeDecl('selnum', ('select', ['dnum', 'dbin', 'dbool', 'dlog'])),       # members based on NUMBER, BINARY, BOOLEAN, LOGICAL
     ]
     ents = [
         Entity('tgt', [Attr('n', Simple('INTEGER'))]),
@@ -371,7 +381,7 @@ def kinds(thorough=False, renamed=True):
     ks += [('enum', N('color')), ('dint', N('dint')), ('dreal', N('dreal')), ('dstr', N('dstr')), ('dbool', N('dbool')),
            ('dlog', N('dlog')), ('dnum', N('dnum')), ('dbin', N('dbin')), ('ddint', N('ddint')),
            ('ref', N('tgt')), ('ref2', N('tgt2')),
-           ('seldef', N('seldef')), ('selent', N('selent')), ('selmix', N('selmix')), ('selnest', N('selnest')), ('selagg', N('selagg')),
+           ('seldef', N('seldef')), ('selent', N('selent')), ('selmix', N('selmix')), ('selnest', N('selnest')), ('selagg', N('selagg')), ('selnum', N('selnum')),
            ('dlsti', N('lsti'))]
     if renamed:
         ks += [('enum2', N('color2')), ('seldef2', N('seldef2'))]
@@ -457,6 +467,10 @@ def family_I(name='fi'):
         Entity('v0', [Attr('w', R), Attr('h', R)], derived=[Derived('area', R, 'w * h')]),
         Entity('v1', [Attr('k', I)], supers=['v0'], derived=[Derived('h', R, '2.0', redeclares='v0')]),
         Entity('v2', [Attr('z', St)], supers=['v1']),
+        # an explicit redeclaration (same Part 21 slot, specialised type), own attributes after it, one of them derived further down
+        Entity('x0', [Attr('q', S('NUMBER')), Attr('kx', I)]),
+        Entity('x1', [Attr('q', R, redeclares='x0'), Attr('wx', R), Attr('bx', I)], supers=['x0']),
+        Entity('x2', [Attr('ux', I)], supers=['x1'], derived=[Derived('wx', R, '1.0', redeclares='x1')]),
         # AND constraint
         Entity('n0', [Attr('b0', I)], supexpr='n1 AND n2'),
         Entity('n1', [Attr('b1', I)], supers=['n0']),
